@@ -189,6 +189,9 @@ func (vlog *valueLog) rewrite(f *logFile) error {
 	vlog.db.gcDiscardTs.Store(vlog.db.MaxVersion())
 	vlog.db.gcActive.Store(true)
 	defer vlog.db.gcActive.Store(false)
+	if y.VerifEnabled {
+		y.VerifEvent("gc.start", f.fid, vlog.db.gcDiscardTs.Load())
+	}
 
 	wb := make([]*Entry, 0, 1000)
 	var size int64
@@ -328,6 +331,9 @@ func (vlog *valueLog) rewrite(f *logFile) error {
 	if vlog.db.vlogGCPauseHook != nil {
 		vlog.db.vlogGCPauseHook()
 	}
+	if y.VerifEnabled {
+		y.VerifGate("gc.scanned", f.fid, len(wb))
+	}
 
 	batchSize := 1024
 	var loops int
@@ -340,6 +346,9 @@ func (vlog *valueLog) rewrite(f *logFile) error {
 		end := i + batchSize
 		if end > len(wb) {
 			end = len(wb)
+		}
+		if y.VerifEnabled {
+			y.VerifGate("gc.beforeWriteBack", f.fid, i, end)
 		}
 		if err := vlog.db.batchSet(wb[i:end]); err != nil {
 			if err == ErrTxnTooBig {
@@ -355,6 +364,9 @@ func (vlog *valueLog) rewrite(f *logFile) error {
 	vlog.opt.Infof("Total entries: %d. Moved: %d", count, moved)
 	vlog.opt.Infof("Removing fid: %d", f.fid)
 	var deleteFileNow bool
+	if y.VerifEnabled {
+		y.VerifGate("gc.beforeDelete", f.fid)
+	}
 	// Entries written to LSM. Remove the older file now.
 	{
 		vlog.filesLock.Lock()
@@ -368,6 +380,9 @@ func (vlog *valueLog) rewrite(f *logFile) error {
 			deleteFileNow = true
 		} else {
 			vlog.filesToBeDeleted = append(vlog.filesToBeDeleted, f.fid)
+		}
+		if y.VerifEnabled {
+			y.VerifEvent("gc.delete", f.fid, deleteFileNow, vlog.iteratorCount())
 		}
 		vlog.filesLock.Unlock()
 	}
@@ -400,6 +415,9 @@ func (vlog *valueLog) decrIteratorCount() error {
 		lfs = append(lfs, vlog.filesMap[id])
 		delete(vlog.filesMap, id)
 	}
+	if y.VerifEnabled {
+		y.VerifEvent("vlog.deferredDelete", len(vlog.filesToBeDeleted))
+	}
 	vlog.filesToBeDeleted = nil
 	vlog.filesLock.Unlock()
 
@@ -420,6 +438,11 @@ func (vlog *valueLog) deleteLogFile(lf *logFile) error {
 	// Delete fid from discard stats as well.
 	vlog.discardStats.Update(lf.fid, -1)
 
+	if y.VerifEnabled {
+		err := lf.Delete()
+		y.VerifEvent("fs.remove", lf.path)
+		return err
+	}
 	return lf.Delete()
 }
 
@@ -618,6 +641,9 @@ func (vlog *valueLog) open(db *DB) error {
 			if err := lf.Delete(); err != nil {
 				return y.Wrapf(err, "while trying to delete empty file: %s", lf.path)
 			}
+			if y.VerifEnabled {
+				y.VerifEvent("fs.remove", lf.path)
+			}
 			delete(vlog.filesMap, fid)
 		}
 	}
@@ -639,6 +665,9 @@ func (vlog *valueLog) open(db *DB) error {
 	}
 	if err := last.Truncate(int64(lastOff)); err != nil {
 		return y.Wrapf(err, "while truncating last value log file: %s", last.path)
+	}
+	if y.VerifEnabled {
+		y.VerifEvent("fs.truncate", last.path, int64(lastOff))
 	}
 
 	// Don't write to the old log file. Always create a new one.
@@ -664,6 +693,9 @@ func (vlog *valueLog) Close() error {
 		}
 		if terr := lf.Close(offset); terr != nil && err == nil {
 			err = terr
+		}
+		if y.VerifEnabled {
+			y.VerifEvent("fs.close", lf.path, offset)
 		}
 	}
 	if vlog.discardStats != nil {
@@ -770,6 +802,9 @@ func (vlog *valueLog) sync() error {
 	vlog.filesLock.RUnlock()
 
 	err := curlf.Sync()
+	if y.VerifEnabled {
+		y.VerifEvent("fs.sync", curlf.path)
+	}
 	curlf.lock.RUnlock()
 	return err
 }
@@ -834,6 +869,9 @@ func (vlog *valueLog) write(reqs []*request) error {
 			if err := curlf.Sync(); err != nil {
 				vlog.opt.Errorf("Error while curlf sync: %v\n", err)
 			}
+			if y.VerifEnabled {
+				y.VerifEvent("fs.sync", curlf.path)
+			}
 		}
 	}()
 
@@ -871,6 +909,9 @@ func (vlog *valueLog) write(reqs []*request) error {
 				return err
 			}
 			curlf = newlf
+			if y.VerifEnabled {
+				y.VerifEvent("vlog.rotate", curlf.fid)
+			}
 		}
 		return nil
 	}
@@ -1211,6 +1252,9 @@ func (v *vlogThreshold) listenForValueThresholdUpdate() {
 					v.logger.Infof("updating value of threshold to: %d", p)
 				}
 				v.valueThreshold.Store(p)
+				if y.VerifEnabled {
+					y.VerifEvent("threshold.update", p)
+				}
 			}
 		case <-v.clearCh:
 			v.vlMetrics.Clear()
